@@ -17,13 +17,13 @@ func init() {
 			"(A4/CSV) the CSV reader is created only over the BOM-aware transformer and only ReuseRecord is configured, header names map to their position in the first record and cells are indexed only through that map (column order, extra columns, BOM, quoting, CRLF are the library's business); (ROW) no row appends more than one entity; the stop-time capacity pre-allocation never discards collected stop times; (G7) no package-level state. " +
 			"Not decided: numerical correctness of strconv and the digit loop, zip/csv decoding themselves.",
 		Rules: []Rule{
-			{Name: "A1", Doc: "column table and decoder tables against the GTFS reference", MinInstances: 70, Run: func(c *Ctx) { runColumnTable(c, nil) }},
-			{Name: "TIME", Doc: "time and date formulas, zone provenance", MinInstances: 4, Run: runTimeFormulas},
-			{Name: "A5", Doc: "file table: names, optionality, phase order, member lookup", MinInstances: 20, Run: runFileTable},
-			{Name: "A4", Doc: "reader discipline", MinInstances: 2, Run: func(c *Ctx) { runReaderDiscipline(c); csvSideObligations(c) }},
-			{Name: "ROW", Doc: "at most one entity per row", MinInstances: 8, Run: runOneAppendPerRow},
+			{Name: "A1", Doc: "column table and decoder tables against the GTFS reference", MinInstances: 49, Run: func(c *Ctx) { runColumnTable(c, nil) }},
+			{Name: "TIME", Doc: "time and date formulas, zone provenance", MinInstances: 2, Run: runTimeFormulas},
+			{Name: "A5", Doc: "file table: names, optionality, phase order, member lookup", MinInstances: 14, Run: runFileTable},
+			{Name: "A4", Doc: "reader discipline", MinInstances: 1, Run: func(c *Ctx) { runReaderDiscipline(c); csvSideObligations(c) }},
+			{Name: "ROW", Doc: "at most one entity per row", MinInstances: 5, Run: runOneAppendPerRow},
 			{Name: "PREALLOC", Doc: "capacity pre-allocation never discards stop times", MinInstances: 1, Run: runPreallocGuard},
-			{Name: "G7", Doc: "no package-level state in the static parser", MinInstances: 50, Run: staticGlobalWrites},
+			{Name: "G7", Doc: "no package-level state in the static parser", MinInstances: 35, Run: staticGlobalWrites},
 		},
 	})
 }
